@@ -3,7 +3,7 @@
 From Coq Require Import NArith List Bool.
 From Falcon Require Import Base.Res Graph.NMap Graph.NMapFacts Graph.Graph Graph.GraphInv Graph.Algo Graph.Spec
   Graph.Oracle Graph.OracleProofs Graph.ReachProofs Graph.C11Check Graph.SemiNca3 Graph.Small3 Graph.DomTheory
-  Graph.OrderProofs Graph.LoopProofs Graph.BackEdges Graph.PreOrderProofs.
+  Graph.OrderProofs Graph.LoopProofs Graph.BackEdges Graph.PreOrderProofs Graph.DomTreeProofs.
 Import ListNotations.
 Local Open Scope N_scope.
 
@@ -187,3 +187,23 @@ Theorem pre_order_perm : forall (V E : Type) (HV : Vertex V) (HE : Edge E) (g : 
   exists l, compute_pre_order g r = Ok l /\ NoDup l /\ forall v, In v l <-> reach (edge_keys g) r v.
 Proof. intros V E HV HE g r Hgi Hr. exact (PreOrderProofs.compute_pre_order_correct g Hgi r Hr). Qed.
 Print Assumptions pre_order_perm.
+
+(* [U] compute_dominator_tree relative to compute_immediate_dominators: for a well-formed idom map (distinct
+   keys, the root is not a key, every value is the root or a key) the construction never fails and yields a
+   consistent graph with vertices {root} + keys and exactly the edges idom(v) -> v *)
+Theorem dominator_tree_of_idoms : forall (V E : Type) (HV : Vertex V) (HE : Edge E) (g : graph V E) r m,
+  compute_immediate_dominators g r = Ok m ->
+  NoDup (map fst m) -> ~ In r (map fst m) ->
+  (forall v d, In (v, d) m -> d = r \/ In d (map fst m)) ->
+  exists t, compute_dominator_tree g r = Ok t /\ GraphInv.graph_inv t /\
+    (forall v, has_vertex t v = true <-> (v = r \/ In v (map fst m))) /\
+    (forall d v, has_edge t d v = true <-> In (v, d) m).
+Proof. intros V E HV HE g r m. exact (DomTreeProofs.dominator_tree_of_idoms g r m). Qed.
+Print Assumptions dominator_tree_of_idoms.
+
+(* [V] the validator for the loop nesting: edge outer -> inner iff the loop of inner is nested in the loop of outer *)
+Theorem looptree_check_sound : forall vs es r ls tv te,
+  tab_ok vs es r = true -> loops_ok (mk_tab vs es r) es ls = true -> looptree_ok ls tv te = true ->
+  forall outer inner, In (outer, inner) te <-> loop_nested es r outer inner.
+Proof. exact LoopProofs.looptree_ok_sound. Qed.
+Print Assumptions looptree_check_sound.
